@@ -257,7 +257,8 @@ class Label(Factory, Container, Collection):
             else:
                 raise JsonFormatException(json, "Label.data")
 
-            return Label.ed(entries, **pairs)
+            # as one dict, not as keyword arguments: a label may be called 'entries' or 'pairsAsDict'
+            return Label.ed(entries, pairsAsDict=pairs)
 
         raise JsonFormatException(json, "Label")
 
@@ -493,7 +494,8 @@ class UntypedLabel(Factory, Container, Collection):
             else:
                 raise JsonFormatException(json, "UntypedLabel.data")
 
-            return UntypedLabel.ed(entries, **pairs).specialize()
+            # as one dict, not as keyword arguments: a label may be called 'entries' or 'pairsAsDict'
+            return UntypedLabel.ed(entries, pairsAsDict=pairs).specialize()
 
         raise JsonFormatException(json, "UntypedLabel")
 
